@@ -64,6 +64,7 @@ vars == <<t, f, spelling, groups, out>>
 Init ==
   /\ t \in Targets /\ f \in 1..NF /\ spelling \in {"bare", "quoted"} /\ groups \in 0..2 /\ out = ""
   /\ spelling = "bare" => Frags[f].bare # ""                \* only expressions can be written bare
+  /\ spelling = "bare" => Frags[f].lit # "str"              \* a bare string literal is the quoted spelling of its contents (explored as such)
 
 \* from_meta -> from_expr (group-transparent) -> own variant | Expr::Lit -> from_value -> string? parse : literal kind
 \* result: "as_written" (the bare tokens) | "parsed" (contents re-parsed by the row's grammar) | "rejected"
